@@ -113,10 +113,10 @@ type raStep struct {
 }
 
 type raBehaviour struct {
-	ID    string   `json:"id"`
-	Steps []raStep `json:"steps"`
-	Crash bool     `json:"crash"` // enumerate the crash images of this behaviour
-	SnapFreq uint64 `json:"snapfreq"` // SnapFreq of the model the behaviour comes from
+	ID       string   `json:"id"`
+	Steps    []raStep `json:"steps"`
+	Crash    bool     `json:"crash"`    // enumerate the crash images of this behaviour
+	SnapFreq uint64   `json:"snapfreq"` // SnapFreq of the model the behaviour comes from
 }
 
 type raInput struct {
@@ -157,11 +157,11 @@ func (f *raFakeNode) ApplyConfChange(cc raftpb.ConfChange) *raftpb.ConfState {
 	return &raftpb.ConfState{Nodes: []uint64{raSelfID}}
 }
 func (f *raFakeNode) TransferLeadership(ctx context.Context, lead, transferee uint64) {}
-func (f *raFakeNode) ReadIndex(ctx context.Context, rctx []byte) error               { return nil }
-func (f *raFakeNode) Status() raftlib.Status                                         { return raftlib.Status{} }
-func (f *raFakeNode) ReportUnreachable(id uint64)                                    {}
-func (f *raFakeNode) ReportSnapshot(id uint64, status raftlib.SnapshotStatus)        {}
-func (f *raFakeNode) Stop()                                                          {}
+func (f *raFakeNode) ReadIndex(ctx context.Context, rctx []byte) error                { return nil }
+func (f *raFakeNode) Status() raftlib.Status                                          { return raftlib.Status{} }
+func (f *raFakeNode) ReportUnreachable(id uint64)                                     {}
+func (f *raFakeNode) ReportSnapshot(id uint64, status raftlib.SnapshotStatus)         {}
+func (f *raFakeNode) Stop()                                                           {}
 
 // ---------------------------------------------------------------- block universe of one behaviour
 
@@ -171,10 +171,10 @@ type raWorld struct {
 	acct   *verifnode.Account
 	recv   *verifnode.Account
 	opt    verifnode.Options
-	defs   []raBlkDef              // 1-based: defs[k-1]
-	blocks map[int]*types.Block    // 0 = genesis
-	txs    map[int][]*types.Tx     // per block
-	byHash map[string]int          // block hash -> id
+	defs   []raBlkDef           // 1-based: defs[k-1]
+	blocks map[int]*types.Block // 0 = genesis
+	txs    map[int][]*types.Tx  // per block
+	byHash map[string]int       // block hash -> id
 	ts     map[int]int64
 }
 
@@ -537,6 +537,7 @@ type raObs struct {
 	Proposed string   `json:"proposed"`
 	PrevWork int      `json:"prevWork"`
 	Ready    uint64   `json:"ready"`
+	ReadyIdx uint64   `json:"ready_idx"` // index of the entry the block factory holds as its ready marker
 	Role     string   `json:"role"`
 	Lterm    uint64   `json:"lterm"`
 	Problems []string `json:"problems,omitempty"`
@@ -620,7 +621,7 @@ func (rn *raNode) observe() *raObs {
 	rn.bf.jobLock.RUnlock()
 	rn.bf.ready.RLock()
 	if rn.bf.ready.ce != nil {
-		o.Ready = rn.bf.ready.ce.term
+		o.Ready, o.ReadyIdx = rn.bf.ready.ce.term, rn.bf.ready.ce.index
 	}
 	rn.bf.ready.RUnlock()
 	st := rn.rs.GetLeaderStatus()
@@ -676,7 +677,8 @@ func (o *raObs) diff(s *raState) (kind string, text string) {
 	case o.Proposed != raBname(s.Proposed):
 		return "proposed", fmt.Sprintf("proposal kept by the operator %s, specification %s", o.Proposed, raBname(s.Proposed))
 	case o.PrevWork == int(raSentinel.BlockNo()):
-		return "prev-work", "the ready marker was handed to the block factory but its previous work was not reset (reset() did not run)"
+		return "prev-work", fmt.Sprintf("an empty entry (ready marker) was among the committed entries published, but the block factory's previous work was not reset: "+
+			"the marker the factory holds is entry %d of term %d (the entry did not reach handleReadyMarker, or reset() did not run)", o.ReadyIdx, o.Ready)
 	case o.PrevWork != s.PrevWork:
 		return "prev-work", fmt.Sprintf("previous work at height %d, specification %d", o.PrevWork, s.PrevWork)
 	case o.Ready != s.Ready:
@@ -778,13 +780,14 @@ func (rn *raNode) step(a *raAct, src, dst *raState, rng interface{ Intn(int) int
 // ---------------------------------------------------------------- a behaviour
 
 type raReplay struct {
-	Behaviour string   `json:"behaviour"`
-	Step      int      `json:"step"`
-	Acts      []raAct  `json:"actions"`
+	Behaviour string     `json:"behaviour"`
+	Step      int        `json:"step"`
+	Acts      []raAct    `json:"actions"`
 	Blocks    []raBlkDef `json:"blocks"`
-	Crash     string   `json:"crash_point,omitempty"`
-	Real      *raObs   `json:"real,omitempty"`
-	Spec      *raState `json:"spec,omitempty"`
+	Crash     string     `json:"crash_point,omitempty"`
+	Drain     uint64     `json:"drain_entry,omitempty"` // the behaviour is over; the rest of the committed entries is being applied
+	Real      *raObs     `json:"real,omitempty"`
+	Spec      *raState   `json:"spec,omitempty"`
 }
 
 func raActs(b *raBehaviour, upto int) []raAct {
@@ -936,6 +939,20 @@ func raRunBehaviour(b *raBehaviour, in *raInput, res *raRes, prog *raProgress, s
 						}
 					}
 				}
+				// like etcd after a snapshot/restart, the committed entries may start with entries that are applied already
+				// (entriesToApply has to drop exactly those)
+				if n := len(rd.CommittedEntries); n > 0 {
+					lo := rd.CommittedEntries[0].Index
+					first, _ := rn.rs.raftStorage.FirstIndex()
+					for ov := rng.Intn(3); ov > 0 && lo > first && lo > 1; ov-- {
+						lo--
+					}
+					if lo < rd.CommittedEntries[0].Index {
+						if pre, err := raStorageEntries(rn.rs.raftStorage, lo, rd.CommittedEntries[0].Index); err == nil {
+							rd.CommittedEntries = append(pre, rd.CommittedEntries...)
+						}
+					}
+				}
 				last := &b.Steps[j].State
 				if last.Term != src.Term || last.Commit != src.Commit {
 					rd.HardState = raftpb.HardState{Term: last.Term, Commit: last.Commit}
@@ -1017,6 +1034,7 @@ func raRunBehaviour(b *raBehaviour, in *raInput, res *raRes, prog *raProgress, s
 		if src.Ent[idx-1].Kind == "nop" {
 			what = "marker"
 		}
+		prog.set(raReplay{Behaviour: b.ID, Step: len(b.Steps), Acts: raActs(b, len(b.Steps)), Blocks: final.Blks, Drain: idx})
 		if err := rn.apply(idx, 0, what); err != nil {
 			res.Violate(map[string]interface{}{"kind": "drain-fails"}, raReplay{Behaviour: b.ID, Step: len(b.Steps), Acts: raActs(b, len(b.Steps)), Blocks: final.Blks}, "%s: applying the rest of the committed entries: %v", b.ID, err)
 			return
